@@ -129,6 +129,7 @@ type hop struct {
 	life    int    // ms, -1 = absent
 	tok     string // "-", "bad", or "<name>:<cbp>:<mbf>"
 	n       int    // cap value / run ms
+	nh      uint64 // NextHopFaceId carried by the Interest (NDNLPv2 field), 0 = none
 }
 
 func b01(b bool) string {
@@ -166,6 +167,9 @@ func (o hop) String() string {
 		}
 		return fmt.Sprintf("cap %d", o.n)
 	case "int":
+		if o.nh != 0 {
+			return fmt.Sprintf("int %d %s %s %s %d %s nh=%d", o.face, o.name, b01(o.cbp), b01(o.mbf), o.nonce, opt(o.life), o.nh)
+		}
 		return fmt.Sprintf("int %d %s %s %s %d %s", o.face, o.name, b01(o.cbp), b01(o.mbf), o.nonce, opt(o.life))
 	case "data":
 		return fmt.Sprintf("data %d %s %d %s %s", o.face, o.name, o.variant, opt(o.fresh), o.tok)
@@ -192,7 +196,11 @@ func parseHop(s string) hop {
 	case "int":
 		fc, _ := strconv.ParseUint(f[1], 10, 64)
 		no, _ := strconv.ParseUint(f[5], 10, 32)
-		return hop{kind: "int", face: fc, name: parseNm(f[2]), cbp: f[3] == "1", mbf: f[4] == "1", nonce: uint32(no), life: unopt(f[6])}
+		h := hop{kind: "int", face: fc, name: parseNm(f[2]), cbp: f[3] == "1", mbf: f[4] == "1", nonce: uint32(no), life: unopt(f[6])}
+		if len(f) > 7 && strings.HasPrefix(f[7], "nh=") {
+			h.nh, _ = strconv.ParseUint(f[7][3:], 10, 64)
+		}
+		return h
 	case "data":
 		fc, _ := strconv.ParseUint(f[1], 10, 64)
 		return hop{kind: "data", face: fc, name: parseNm(f[2]), variant: unopt(f[3]), fresh: unopt(f[4]), tok: f[5]}
@@ -411,6 +419,9 @@ func genCase(r *rand.Rand, mode string) (caseCfg, []hop) {
 			if len(sentInts) > 0 && r.Intn(5) == 0 { // replay an earlier (name, nonce): a loop from another face, or a dead nonce later on
 				p := sentInts[r.Intn(len(sentInts))]
 				o.name, o.nonce, o.cbp, o.mbf = p.name, p.nonce, p.cbp, p.mbf
+			}
+			if r.Intn(7) == 0 { // NextHopFaceId set by a local application: forwarded to that face (5 does not exist: dropped), FIB not consulted
+				o.nh = uint64(1 + r.Intn(nFaces+1))
 			}
 			sentInts = append(sentInts, o)
 			recent = append(recent, ekey{o.name.String(), o.cbp, o.mbf})
@@ -712,7 +723,11 @@ func (w *world) exec(o hop) {
 	case "int":
 		pkt, raw := mkInterest(o)
 		w.sent = nil
-		fw.VerifPitcsIncomingInterest(w.th, &defn.Pkt{Name: pkt.Interest.NameV, L3: pkt, Raw: raw, IncomingFaceID: utils.IdPtr(o.face)})
+		ipkt := &defn.Pkt{Name: pkt.Interest.NameV, L3: pkt, Raw: raw, IncomingFaceID: utils.IdPtr(o.face)}
+		if o.nh != 0 {
+			ipkt.NextHopFaceID = utils.IdPtr(o.nh)
+		}
+		fw.VerifPitcsIncomingInterest(w.th, ipkt)
 		var sentTo []string
 		var datas []string
 		for _, s := range w.sent {
